@@ -245,6 +245,48 @@ pub fn c08(s: &mut Sess, rng: &mut Rng, n: u64) {
         if o != want { s.out.oracle_fail(format!("C08: scan reported `{o}`, an independent directory/index comparison gives `{want}`")); }
         // clean-up: removes exactly the reported garbage, never a referenced blob
         let before = s.op("dump");
+        let mode = rng.below(5);
+        if mode == 3 && !exp_orph.is_empty() {
+            // an orphan found by the scan becomes referenced before the clean-up runs: a put of the
+            // same content after the scan; every clean-up entry point must now leave it alone
+            let c = contents[3];
+            let h = blake3::hash(c).to_hex().to_string();
+            if exp_orph.contains(&h) {
+                let r = s.op(&format!("put {} ={}", hx(b"zz"), hx(c)));
+                if r == "ok" {
+                    let r = s.op(&format!("delete_orphan {h}"));
+                    if r != "false" { s.out.oracle_fail(format!("C08: delete_orphan of a blob referenced since the scan returned {r}")); }
+                    let r = s.op("quarantine");
+                    if !r.contains("errors=0") { s.out.oracle_fail(format!("C08: quarantine_orphans: {r}")); }
+                    let g = s.op(&format!("get {}", hx(b"zz")));
+                    if !g.starts_with("found") { s.out.oracle_fail(format!("C08: a blob referenced since the scan was removed by the clean-up: get returned {g}")); }
+                    exp_orph.remove(&h);
+                    s.out.count("c08.orphan_becomes_referenced");
+                }
+            }
+        }
+        if mode == 1 {
+            // one blob at a time: every listed orphan, plus hashes that are not orphans (must be refused)
+            let order = s.op("orphan_order");
+            for h in refd.iter().take(2) {
+                let r = s.op(&format!("delete_orphan {h}"));
+                if r != "false" { s.out.oracle_fail(format!("C08: delete_orphan of referenced {h} returned {r}")); }
+            }
+            if order != "_" && order != "nostats" {
+                for h in order.split(',') {
+                    let r = s.op(&format!("delete_orphan {h}"));
+                    if r != "true" { s.out.oracle_fail(format!("C08: delete_orphan {h} returned {r}")); }
+                    let r2 = s.op(&format!("delete_orphan {h}"));
+                    if r2 != "false" { s.out.oracle_fail(format!("C08: second delete_orphan {h} returned {r2}")); }
+                }
+            }
+            s.out.count("c08.delete_orphan_each");
+        } else if mode == 2 {
+            let r = s.op("quarantine");
+            if !r.contains("errors=0") || !r.contains(&format!("quarantined={}", exp_orph.len())) { s.out.oracle_fail(format!("C08: quarantine_orphans: {r}, expected {} blobs", exp_orph.len())); }
+            s.out.count("c08.quarantine");
+        }
+        // (after a partial clean-up the full one removes what is left: strays, staging files)
         let r = s.op("delete_orphans");
         if !r.contains("errors=0") { s.out.oracle_fail(format!("C08: delete_orphans: {r}")); }
         s.op("traceset");
